@@ -315,6 +315,35 @@ def run_case(case, tier):
         for h in list(p.logger.handlers):
             p.logger.removeHandler(h)
         exp = expected_outcome(D, case["auto_pad"])
+        if case["kind"] != "closure" and case.get("n", 0) % 5 == 0:
+            # the same Parser object first fails on an earlier version of the file (same definition names, other
+            # native types behind them, and a typo at the end); what it then says about the real file must not differ
+            import re as _re
+            swap = {"int16": "int64", "int64": "int16", "int32": "int8", "int8": "int32", "double": "float", "float": "double",
+                    "uint16": "uint64", "uint64": "uint16", "char": "int32", "uint8": "double"}
+            poison = _re.sub(r"(?m)^(\s+\w+: )(u?int(?:8|16|32|64)|float|double|char)\b", lambda m: m.group(1) + swap.get(m.group(2), m.group(2)),
+                             root.read_text())
+            last = [ln for ln in poison.splitlines() if ln and not ln.startswith(" ")][-1].rstrip(":")
+            poison = poison.rstrip("\n") + "\n  ZZ_TYPO:\n" + ("    id: 9876\n" if last == "message_defs" else "") + "    fields:\n      oops: no_such_type_at_all\n"
+            if last not in ("message_defs", "struct_defs"):
+                poison += "struct_defs:\n  ZZ_TYPO2:\n    fields:\n      oops: no_such_type_at_all\n"
+            pz = work / "earlier_version.yaml"
+            pz.write_text(poison)
+            failed = False
+            try:
+                p.parse(pz)
+            except BaseException:
+                failed = True
+            if not failed:
+                # (only a failed parse leaves a re-usable object: start over with a fresh one)
+                p = Parser(validate_alignment=True, auto_pad=case["auto_pad"], import_coredefs=core)
+                p.logger.setLevel(logging.CRITICAL)
+                for h in list(p.logger.handlers):
+                    p.logger.removeHandler(h)
+            else:
+                C["parser_objects_reused_after_failure"] = C.get("parser_objects_reused_after_failure", 0) + 1
+            _CONTRACT["snaps"].clear()
+            n0 = _CONTRACT["count"]
         try:
             p.parse(root)
             err = None
